@@ -277,6 +277,12 @@ Outcome World::apply(const Op& op)
         else if (f == "remove_crate") db.remove_crate(crates.at((size_t)I(0)));
         else if (f == "add_track") crates.at((size_t)I(0)).add_track(tracks.at((size_t)I(1)));
         else if (f == "add_track_id") crates.at((size_t)I(0)).add_track(tracks.at((size_t)I(1)).id());
+        else if (f == "add_tracks")
+        {
+            // the iterator-range convenience: the named track twice (the second is a no-op by the statement)
+            std::vector<dj::track> v{tracks.at((size_t)I(1)), tracks.at((size_t)I(1))};
+            crates.at((size_t)I(0)).add_tracks(v.begin(), v.end());
+        }
         else if (f == "remove_track_from") crates.at((size_t)I(0)).remove_track(tracks.at((size_t)I(1)));
         else if (f == "clear_tracks") crates.at((size_t)I(0)).clear_tracks();
         else
